@@ -34,6 +34,7 @@ SHAPES = {
     "empty": ["j", [], "j"],
     "emptyin": ["j", ["j", []]],
     "big": ["j", "j", ["j", "j", "j"], ["j", ["j"]], "j", "j"],       # 12 ids: two-digit numerals
+    "ten": ["j", "j", "j", "j", "j", "j", ["j", "j", "j"]],           # exactly 10 ids: '10' next to one-digit ids
 }
 
 
@@ -310,11 +311,11 @@ def harnesses(tier):
         return label_replay_harnesses()
     if tier == "quick":
         return [structure_harness("structure", ["flat3", "n1", "n2", "deep", "empty", "emptyin"], "plain"),
-                structure_harness("structure-big", ["big"], "plain", flags_mode="none", edges_mode="chain"),
+                structure_harness("structure-big", ["big", "ten"], "plain", flags_mode="none", edges_mode="chain"),
                 structure_harness("nasty-labels", ["flat2", "n1"], "nasty", flags_mode="none")]
     return [structure_harness("structure", ["flat3", "n1", "n2", "n3", "deep", "deep2", "empty", "emptyin"], "plain",
                               perm_two=True),
-            structure_harness("structure-big", ["big"], "plain", flags_mode="none", edges_mode="chain"),
+            structure_harness("structure-big", ["big", "ten"], "plain", flags_mode="none", edges_mode="chain"),
             structure_harness("nasty-labels", ["flat2", "n1", "deep"], "nasty", flags_mode="none")]
 
 
